@@ -395,7 +395,7 @@ func init() {
 		Assumptions:  []string{"plain-mode INI read after a command-line parse is not ranked by the statement and is not exercised", "an empty environment value for a non-string option is skipped"},
 		RequiredHits: []string{"winner:cli", "winner:ini", "winner:env", "winner:default", "winner:initial", "history:CD", "history:DCD", "history:config-flag-after", "history:config-default-last"},
 		Bound:        [2]string{"complete product, <= 2 namespace deviations", "complete product, <= 2 namespace deviations"},
-		BudgetS:      [2]int{100, 600},
+		BudgetS:      [2]int{170, 600},
 	})
 }
 
